@@ -300,6 +300,13 @@ pub fn child_main(args: &[String]) -> i32 {
             let mut cfg = build_config(&s_built, &sink, "", Some(&mut rng)).expect("valid config");
             // (the specs of this history were already adjusted: see below)
             cfg.root_mut().set_level(s.root_level);
+            // somebody else may have moved the facade's maximum in the meantime (log::set_max_level is a public
+            // function): every reconfiguration installs the configuration's own maximum
+            if rng.chance(1, 4) {
+                let other = *rng.pick(&FILTERS);
+                log::set_max_level(other);
+                st.count("facade_maximum_moved_by_somebody_else_before_a_reconfiguration");
+            }
             let r = std::panic::catch_unwind(std::panic::AssertUnwindSafe(|| handle.set_config(cfg)));
             if r.is_err() {
                 st.count("set_config_calls_that_unwound_from_an_appender_destructor");
